@@ -16,7 +16,7 @@ LEVEL_RULE = (
 )
 EXHAUSTIVE_SUBDOMAINS = ["37 legal character codes x 8 positions x {ADS-B, BDS 2,0}", "TC 1-4 x category 0-7"]
 ASSUMPTIONS = ["six-bit alphabet per Annex 10: A-Z = 1..26, space = 32, 0-9 = 48..57"]
-REQUIRED = ["header_bits_recur_inside_identification", "adsb", "bds20", "independence", "df17", "df18", "df20", "df21"] + ["tc%d" % t for t in (1, 2, 3, 4)]
+REQUIRED = ["header_bits_recur_inside_identification", "first_identifications_again_after_70k_others", "adsb", "bds20", "independence", "df17", "df18", "df20", "df21"] + ["tc%d" % t for t in (1, 2, 3, 4)]
 
 ALPHA = {**{chr(64 + i): i for i in range(1, 27)}, " ": 32, **{str(d): 48 + d for d in range(10)}}
 LEGAL = sorted(ALPHA)
@@ -109,7 +109,40 @@ def m_bds20(ctx, case):
     ctx.nontrivial(("c20", hx))
 
 
-MONITORS = {"adsb": m_adsb, "bds20": m_bds20}
+def m_volume(ctx, case):
+    """a long-running process: after tens of thousands of OTHER identifications (more than a 16-bit slot count) the first ones
+    still decode to themselves - a bounded memo whose eviction leaves stale keys behind shows only after it has wrapped"""
+    from pyModeS import adsb, commb
+    import random as _r
+    rng = _r.Random(case["vseed"])
+    n = case["n"]
+    first = []
+    for k in range(n):
+        s8 = "".join(rng.choice(LEGAL) for _ in range(8))
+        if case["carrier"] == "bds20":
+            hx = "%028X" % bits.commb_frame(20 + (k & 1), rng.getrandbits(27), (0x20 << 48) | enc(s8), rng.getrandbits(24))
+            fn = commb.cs20
+        else:
+            hx = "%028X" % bits.es_frame(17, 5, rng.getrandbits(24), ((1 + k % 4) << 51) | ((k % 8) << 48) | enc(s8))
+            fn = adsb.callsign
+        r = call(fn, hx)
+        ctx.ev()
+        if r != ("ok", s8.replace(" ", "_")):
+            ctx.violation("callsign-wrong" if case["carrier"] == "adsb" else "cs20-wrong", frame=hx, expected=s8.replace(" ", "_"), observed=r[1:], after_calls=k)
+            return
+        if k < 1500:
+            first.append((hx, s8))
+    for hx, s8 in first:
+        r = call(fn, hx)
+        ctx.ev()
+        if r != ("ok", s8.replace(" ", "_")):
+            ctx.violation("identification-decoded-differently-after-%dk-others" % (n // 1000), frame=hx, expected=s8.replace(" ", "_"), observed=r[1:], carrier=case["carrier"])
+            return
+    ctx.hit("first_identifications_again_after_70k_others")
+    ctx.nontrivial(("vol", case["carrier"], case["vseed"]))
+
+
+MONITORS = {"adsb": m_adsb, "bds20": m_bds20, "volume": m_volume}
 
 
 def cases(ctx):
@@ -152,6 +185,10 @@ def cases(ctx):
                         yield "adsb", c
                         yield "bds20", dict(c, df=rng.choice((20, 21)))
             i += 1
+    for carrier in ("bds20", "adsb"):
+        if ctx.mine(i):
+            yield "volume", {"carrier": carrier, "n": 70000, "vseed": ctx.seed * 77 + i}
+        i += 1
     # the frame's first 40 bits recur inside the 48 identification bits at offset o (rejection sampling over legal identifications)
     for o in range(9):
         for kind in ("adsb", "bds20"):
